@@ -137,7 +137,16 @@ func chunkShape(h *rt.H, c *codec) {
 	// CUTSTEP > 1 (long documents): only every CUTSTEP-th cut position, plus the mode
 	// in which every byte is its own chunk
 	step := h.Param("CUTSTEP", 1)
-	pos := h.Choose("cutpos", 0, (n-1+step-1)/step) * step // >= n-1: every byte its own chunk
+	last := (n - 1 + step - 1) / step
+	// CUTMAX > 0: cut positions only within the first CUTMAX bytes (headers of long
+	// tokens), plus the every-byte mode
+	if m := h.Param("CUTMAX", 0); m > 0 && m < last {
+		last = m
+	}
+	pos := h.Choose("cutpos", 0, last) * step // >= n-1 (or the last choice): every byte its own chunk
+	if h.Param("CUTMAX", 0) > 0 && pos == last*step {
+		pos = n - 1
+	}
 	if pos >= n-1 {
 		for i := range cuts {
 			cuts[i] = true
